@@ -74,7 +74,7 @@ class C01(CheckBase):
     stubbed_components = ['results of faulted read()/write() calls (decided by simkernel)', 'medium truncation (static)']
 
     def budget(self, tier):
-        return 250 if tier == 'quick' else 5000
+        return 600 if tier == 'quick' else 8000
 
     def time_cap(self, tier):
         return 600 if tier == 'quick' else 5400
